@@ -20,7 +20,11 @@ FILES = {
     "sqllogictest/src/column_type.rs": ["C03", "C01"],
     "sqllogictest-bin/src/main.rs": ["C18", "C16", "C17", "C19", "C02", "C08", "C06"],
     "sqllogictest-engines/src/external.rs": ["C20", "C16"],
+    "sqllogictest-bin/src/engines.rs": ["C20", "C09", "C19", "C17"],
 }
+# MUTATE_FILES=a.rs,b.rs restricts a sweep to those files
+if os.environ.get("MUTATE_FILES"):
+    FILES = {k: v for k, v in FILES.items() if any(k.endswith(x) for x in os.environ["MUTATE_FILES"].split(","))}
 
 OPS = [
     (r"==", "!="), (r"!=", "=="), (r"<=", "<"), (r">=", ">"),
@@ -40,6 +44,8 @@ OPS = [
     (r"(?<![\w\)\]])!(?=[a-z_\(])", ""), (r"(?<= )\+(?= )", "-"), (r"(?<= )-(?= )", "+"),
     (r"(?<![\w\.\"'])([2-9])(?![\w\.\"'])", lambda m: str(int(m.group(1)) + 1)),
     (r"\bSome\((\w+)\) =>", r"Some(\1) if false =>"),
+    # a link of a method chain dropped (`.replace("{db}", …)` on a line of its own)
+    (r"^(\s+)(\.\w+\([^;]*\))$", r"\1// \2"),
     # statement deletion: a whole line that is a call / assignment statement
     (r"^(\s+)((?:self\.|[a-z_]+\.)[\w\.]+\(.*\);)$", r"\1// \2"),
     (r"^(\s+)((?:self\.)?[a-z_\.]+ = .*;)$", r"\1// \2"),
